@@ -236,8 +236,8 @@ Qed.
 
 Lemma camel_key s r : c10_ident_ok s = true -> to_camel_case s = Ok r -> keychars r = true.
 Proof.
-  intros H. unfold to_camel_case. pose proof (to_pascal_ident _ (ident_ok_chars _ H)) as Hp. destruct (to_pascal_case s) as [|c t]; [discriminate|].
-  destruct (c <? 128); [|discriminate]. intros E. injection E as <-. cbn [forallb] in Hp. apply andb_true_iff in Hp as [Hc Ht].
+  intros H. unfold to_camel_case. pose proof (to_pascal_ident _ (ident_ok_chars _ H)) as Hp. destruct (to_pascal_case s) as [|c t]; [intros E; injection E as <-; reflexivity|].
+  intros E. injection E as <-. cbn [forallb] in Hp. apply andb_true_iff in Hp as [Hc Ht].
   unfold keychars. cbn [forallb]. apply andb_true_iff. split.
   - pose proof (alower_ident c Hc) as Hl. revert Hl. unfold c10_ident_char, c10_key_char. lia.
   - revert Ht. apply forallb_impl. intros x. unfold c10_ident_char, c10_key_char. lia.
